@@ -10,11 +10,21 @@
 (*     Fixpoint) and                                                       *)
 (*   - layouts decoded from the code files of the real assembler           *)
 (*     (PassLoop_Obs).                                                     *)
+(*                                                                         *)
+(* Names and scopes (manual: "Local Symbols").  A symbol is a pair         *)
+(* <<name, scope>>: the scope is the global one or a SECTION; a name that  *)
+(* is defined inside a section belongs to that section.  Which symbol a    *)
+(* use of a name denotes is decided by the scope rules alone (Bind below): *)
+(* the innermost enclosing scope that defines the name anywhere in the     *)
+(* text, or exactly the scope named in brackets (sym[PARENTn], sym[]).     *)
+(* FORWARD statements do not change that meaning; they only tell the       *)
+(* assembler early.  Without -U names that differ in case only are one     *)
+(* name (Ident).                                                           *)
 (***************************************************************************)
 EXTENDS Naturals, Integers, Sequences, FiniteSets
 
 CONSTANTS
-  Labels,       \* symbol names
+  Labels,       \* symbol names as they are spelled in the source
   Fills,        \* sizes of Fill(n) items
   AbsWidths,    \* widths of RefAbs items (2: dc.w/fdb/dw, 4: dc.l)
   EquOffs,      \* k in Equ(l, l2 + k)
@@ -24,9 +34,16 @@ CONSTANTS
   Padding,      \* TRUE: the target pads odd addresses before word-sized statements (68000, MSP430)
   Pages,        \* operands of Assume(page) items ({}: none): ASSUME DPR:page (6809), ASSUME B:page (65CE02) declare
                 \* the content of the direct/base page register; direct addressing reaches page*256 .. page*256+255
-  SelfKinds     \* which of the statement kinds {"labs", "lvar", "lrel"} are in the alphabet: a reference
+  SelfKinds,    \* which of the statement kinds {"labs", "lvar", "lrel"} are in the alphabet: a reference
                 \* statement that carries a label on its own line and whose operand may be that very label,
                 \* the PC symbol or another label (lab: dc.w lab / dc.w * / tab: dc.w r0-tab / lab: bra lab)
+  RefKinds,     \* which of the plain reference kinds {"abs", "var", "rel"} are in the alphabet
+  Sects,        \* names of SECTION ... ENDSECTION blocks ({}: programs without sections); a name is opened once
+  Quals,        \* what a plain reference may carry in brackets: NoQ (nothing: sym), n in 0..7 (sym[PARENTn] or the
+                \* name of that section: only the scope n levels up, 0 = the current one), QGlob (sym[]: global only)
+  Alias,        \* sets of Labels that are spellings of ONE name differing in case only ({{"la", "LA"}}); labels
+                \* outside every set have one spelling
+  CaseSens      \* command line option -U: TRUE = spellings that differ in case are different names
 
 -----------------------------------------------------------------------------
 (* Programs *)
@@ -34,12 +51,15 @@ CONSTANTS
 AlSet == IF Padding THEN BOOLEAN ELSE {FALSE}
 NoLab == "-"      \* "no label on this line"
 PcSym == "*"      \* operand is the PC symbol (* or $): the address of the statement itself
+NoQ   == 8        \* no section in brackets behind the name (cfg files have no negative numbers)
+QGlob == 9        \* empty brackets: sym[]
+Glob  == "#"      \* the global scope (scopes: Glob and the section names)
 
 Items ==
   [k : {"def"}, l : Labels, al : AlSet] \cup        \* l: <2 marker bytes>   (al: marker is a word => aligned)
-  [k : {"abs"}, l : Labels, w : AbsWidths] \cup     \* dc.w l / dc.l l / fdb l / dw l
-  [k : {"var"}, l : Labels] \cup                    \* lda l / bra l / jmp l     (size depends on the operand)
-  [k : {"rel"}, l : Labels] \cup                    \* bne l / bne.s l / jnz l   (8-bit PC-relative)
+  [k : {"abs"} \cap RefKinds, l : Labels, w : AbsWidths, q : Quals] \cup   \* dc.w l / dc.l l / fdb l / dw l   (l[..] if q # NoQ)
+  [k : {"var"} \cap RefKinds, l : Labels, q : Quals] \cup   \* lda l / bra l / jmp l     (size depends on the operand)
+  [k : {"rel"} \cap RefKinds, l : Labels, q : Quals] \cup   \* bne l / bne.s l / jnz l   (8-bit PC-relative)
   [k : {"fill"}, n : Fills] \cup                    \* n bytes
   (IF Padding THEN {[k |-> "ins"]} ELSE {}) \cup    \* nop: word-sized instruction without operand
   [k : {"asm"}, pg : Pages] \cup                    \* assume dpr:pg: no code, changes how later operands are sized
@@ -50,7 +70,10 @@ Items ==
         /\ (e.l = NoLab => e.t = PcSym /\ ~e.df)
         /\ (e.df => e.t \in Labels /\ e.t # e.l)} \cup
   {e \in [k : {"lvar", "lrel"} \cap SelfKinds, l : Labels \cup {NoLab}, t : Labels \cup {PcSym}] :
-        e.l = NoLab => e.t = PcSym}
+        e.l = NoLab => e.t = PcSym} \cup
+  \* name scopes: SECTION s / ENDSECTION / FORWARD l (no code; they decide which symbol a name denotes)
+  [k : {"sect"}, s : Sects] \cup
+  (IF Sects = {} THEN {} ELSE {[k |-> "ends"]} \cup [k : {"fwd"}, l : Labels])
 
 PlainRef(it) == it.k \in {"abs", "var", "rel"}
 IsSelf(it) == it.k \in {"labs", "lvar", "lrel"}
@@ -58,21 +81,125 @@ IsRef(it) == PlainRef(it) \/ IsSelf(it)
 IsAbs(it) == it.k \in {"abs", "labs"}
 IsVar(it) == it.k \in {"var", "lvar"}
 IsRel(it) == it.k \in {"rel", "lrel"}
-Defines(it, l) == it.k \in {"def", "equ", "labs", "lvar", "lrel"} /\ it.l = l
-Uses(it, l) == (PlainRef(it) /\ it.l = l) \/ (IsSelf(it) /\ it.t = l) \/ (it.k = "equ" /\ it.l2 = l)
-Mentions(it, l) == Defines(it, l) \/ Uses(it, l)
 
-DefIdx(p, l) == {j \in 1..Len(p) : Defines(p[j], l)}
-UseIdx(p, l) == {j \in 1..Len(p) : Uses(p[j], l)}
+\* the statement puts a name into the symbol table / its operand is a name (which one, with which brackets)
+DefinesName(it) == it.k \in {"def", "equ", "labs", "lvar", "lrel"} /\ it.l # NoLab
+HasRefName(it) == PlainRef(it) \/ (IsSelf(it) /\ it.t # PcSym) \/ it.k = "equ"
+RefName(it) == IF PlainRef(it) THEN it.l ELSE IF it.k = "equ" THEN it.l2 ELSE it.t
+RefQual(it) == IF PlainRef(it) THEN it.q ELSE NoQ
+\* the label is spelled in the statement (builder symmetry, option -U)
+Mentions(it, l) == (DefinesName(it) /\ it.l = l) \/ (HasRefName(it) /\ RefName(it) = l) \/ (it.k = "fwd" /\ it.l = l)
 
-\* every used symbol is defined exactly once, nothing is defined twice
-WellFormed(p) ==
-  \A l \in Labels : /\ Cardinality(DefIdx(p, l)) <= 1
-                    /\ (UseIdx(p, l) # {} => DefIdx(p, l) # {})
+\* the name a spelling stands for: without -U the spellings of an Alias set are one name
+IdentTab == [l \in Labels |->
+               IF CaseSens \/ ~\E a \in Alias : l \in a THEN l
+               ELSE CHOOSE x \in (CHOOSE a \in Alias : l \in a) : TRUE]
+Ident(l) == IdentTab[l]
+Idents == {Ident(l) : l \in Labels}
+Scopes == {Glob} \cup Sects
+Syms == Idents \X Scopes            \* symbols: <<name, scope>>
+NoKey == <<"-", "-">>               \* "no symbol"
+
+\* a program in which every name has one spelling means the same with and without -U
+CaseFree(p) ==
+  \A a \in Alias : Cardinality({l \in a : \E j \in 1..Len(p) : Mentions(p[j], l)}) <= 1
+
+-----------------------------------------------------------------------------
+(* Scope analysis of a program text (manual: Nesting and Scope Rules).     *)
+(*   stk[j]   the scopes statement j stands in, innermost first, Glob last *)
+(*            (stk[Len(p)+1]: what is still open behind the last one)      *)
+(*   dsym[j]  the symbol statement j defines: its name in the innermost    *)
+(*            scope ("symbols defined within a section additionally get    *)
+(*            ... the section"), NoKey if it defines none                  *)
+(*   bind[j]  the symbol the operand name of statement j denotes: "AS      *)
+(*            first searches for a symbol assigned to the current section, *)
+(*            and afterwards traverses the list of parent sections until   *)
+(*            the global symbols are reached"; with brackets "AS will only *)
+(*            seek for symbols from this section"; NoKey: no such symbol   *)
+
+Enter(st, it) == IF it.k = "sect" THEN <<it.s>> \o st
+                 ELSE IF it.k = "ends" /\ Len(st) > 1 THEN Tail(st) ELSE st
+RECURSIVE StacksR(_, _, _)
+StacksR(p, j, st) == IF j > Len(p) THEN <<st>> ELSE <<st>> \o StacksR(p, j + 1, Enter(st, p[j]))
+Stacks(p) == IF Sects = {} THEN [j \in 1..(Len(p) + 1) |-> <<Glob>>] ELSE StacksR(p, 1, <<Glob>>)
+
+\* the scopes brackets q select out of the scope path st (<<>>: there is no such section)
+Selected(st, q) == IF q = NoQ THEN st
+                   ELSE IF q = QGlob THEN <<Glob>>
+                   ELSE IF q + 1 <= Len(st) THEN <<st[q + 1]>> ELSE <<>>
+MinOf(S) == CHOOSE x \in S : \A y \in S : x <= y
+
+DSym(p, stk, j) == IF DefinesName(p[j]) THEN <<Ident(p[j].l), stk[j][1]>> ELSE NoKey
+Bind(p, stk, dsym, j) ==
+  IF ~HasRefName(p[j]) THEN NoKey
+  ELSE LET id   == Ident(RefName(p[j]))
+           path == Selected(stk[j], RefQual(p[j]))
+           hits == {k \in 1..Len(path) : \E h \in 1..Len(p) : dsym[h] = <<id, path[k]>>}
+       IN IF hits = {} THEN NoKey ELSE <<id, path[MinOf(hits)]>>
+\* (sequences built by concatenation: TLC then holds them as evaluated tuples instead of re-evaluating a function
+\* expression at every application)
+RECURSIVE DSyms(_, _, _)
+DSyms(p, stk, j) == IF j > Len(p) THEN <<>> ELSE <<DSym(p, stk, j)>> \o DSyms(p, stk, j + 1)
+RECURSIVE Binds(_, _, _, _)
+Binds(p, stk, dsym, j) == IF j > Len(p) THEN <<>> ELSE <<Bind(p, stk, dsym, j)>> \o Binds(p, stk, dsym, j + 1)
+Analysis(p) ==
+  \* CHOOSE over a one-element set = "evaluate once and name it"
+  LET stk  == Stacks(p)
+      dsym == DSyms(p, stk, 1)
+  IN [stk |-> stk, dsym |-> dsym, bind |-> Binds(p, stk, dsym, 1)]
+
+DefIdx(p, sa, y) == {j \in 1..Len(p) : sa.dsym[j] = y}
+UseIdx(p, sa, y) == {j \in 1..Len(p) : sa.bind[j] = y}
+
+\* every used symbol is defined exactly once, nothing is defined twice; sections are properly nested, every name
+\* in brackets is an enclosing section, and every FORWARD stands inside a section in front of the definition it
+\* announces ("AS prints errors at the end of a section in case that not all ... have been resolved")
+WellFormedA(p, sa) ==
+  /\ \A j \in 1..Len(p) : \A h \in (j + 1)..Len(p) : sa.dsym[j] # NoKey => sa.dsym[j] # sa.dsym[h]
+  /\ \A j \in 1..Len(p) : HasRefName(p[j]) => sa.bind[j] # NoKey
+  /\ Sects = {} \/
+     /\ Len(sa.stk[Len(p) + 1]) = 1
+     /\ \A j \in 1..Len(p) :
+       /\ p[j].k = "ends" => Len(sa.stk[j]) > 1
+       /\ p[j].k = "sect" => \A h \in 1..(j - 1) : p[h].k = "sect" => p[h].s # p[j].s
+       /\ PlainRef(p[j]) => Selected(sa.stk[j], p[j].q) # <<>>
+       /\ p[j].k = "fwd" => /\ Len(sa.stk[j]) > 1
+                            /\ \E h \in (j + 1)..Len(p) : sa.dsym[h] = <<Ident(p[j].l), sa.stk[j][1]>>
+WellFormed(p) == \E sa \in {Analysis(p)} : WellFormedA(p, sa)
 \* every EQU takes its value from a symbol defined earlier in the text (the manual warns about the
 \* other case: "an EQU containing forward references will not be done at all in the first pass")
 EquBackward(p) ==
-  \A j \in 1..Len(p) : p[j].k = "equ" => \E h \in 1..(j-1) : Defines(p[h], p[j].l2)
+  \E sa \in {Analysis(p)} :
+    \A j \in 1..Len(p) : p[j].k = "equ" => \E h \in 1..(j-1) : sa.dsym[h] # NoKey /\ sa.dsym[h] = sa.bind[j]
+
+\* The accident the manual describes under FORWARD: "Forward references may lead to situations where AS accesses
+\* a symbol from a higher section in the first pass. This is not a disaster by itself as long as the correct
+\* symbol is used in the second pass, but ... The second pass will not be started at all."  A use of a name is
+\* safe from it when, of the scopes it may come from, the innermost one with a definition IN FRONT OF the use
+\* is already the scope of the symbol it denotes (or there is none: the name is simply unknown so far), when
+\* the scope is given in brackets, or when a FORWARD for the name stands in front of the use in the same
+\* section and the symbol is that section's ("the symbol is thereby explicitly announced to be local").
+\* Programs with an unsafe use have no definite outcome by the manual; C01 is judged on the others.
+SafeRef(p, sa, j) ==
+  LET id    == Ident(RefName(p[j]))
+      st    == sa.stk[j]
+      early == {k \in 1..Len(st) : \E h \in 1..(j - 1) : sa.dsym[h] = <<id, st[k]>>}
+      announced == /\ Len(st) > 1
+                   /\ \E h \in 1..(j - 1) : p[h].k = "fwd" /\ Ident(p[h].l) = id /\ sa.stk[h] = st
+  IN \/ RefQual(p[j]) # NoQ
+     \/ sa.bind[j] = NoKey
+     \/ early = {}
+     \/ <<id, st[MinOf(early)]>> = sa.bind[j]
+     \/ announced /\ sa.bind[j] = <<id, st[1]>>
+ScopeSafe(p) ==
+  Sects = {} \/ \E sa \in {Analysis(p)} : \A j \in 1..Len(p) : HasRefName(p[j]) => SafeRef(p, sa, j)
+
+\* the scope rules decide something in the program: a name is used where more than one scope of its path defines it
+Shadowed(p) ==
+  Sects # {} /\ \E sa \in {Analysis(p)} : \E j \in 1..Len(p) :
+     /\ HasRefName(p[j])
+     /\ Cardinality({k \in DOMAIN sa.stk[j] :
+                       \E h \in 1..Len(p) : sa.dsym[h] = <<Ident(RefName(p[j])), sa.stk[j][k]>>}) > 1
 
 \* word-sized statements start on an even address when the target pads
 Aligned(it) == Padding /\ (IsRef(it) \/ it.k = "ins" \/ (it.k = "def" /\ it.al))
@@ -94,23 +221,21 @@ Field(short, v) == IF VarMode = "abs8" /\ short THEN v % 256 ELSE v
 (*   a = address of the item's first byte, n = its size, p = padding bytes *)
 (*   in front of it, v = the value its operand field encodes (-1: none).   *)
 
-RECURSIVE SymValR(_, _, _, _)
-SymValR(p, lay, l, depth) ==
-  IF depth = 0 \/ DefIdx(p, l) = {} THEN -1
-  ELSE LET j == CHOOSE x \in DefIdx(p, l) : TRUE IN
+RECURSIVE SymValR(_, _, _, _, _)
+SymValR(p, sa, lay, y, depth) ==
+  IF depth = 0 \/ y = NoKey \/ DefIdx(p, sa, y) = {} THEN -1
+  ELSE LET j == CHOOSE x \in DefIdx(p, sa, y) : TRUE IN
        IF p[j].k # "equ" THEN lay[j].a       \* a label: the address of the statement it stands in front of
-       ELSE LET b == SymValR(p, lay, p[j].l2, depth - 1) IN IF b = -1 THEN -1 ELSE b + p[j].d
-\* the address (label) or expression value (EQU) where l is defined in layout lay
-SymVal(p, lay, l) == SymValR(p, lay, l, Cardinality(Labels) + 1)
+       ELSE LET b == SymValR(p, sa, lay, sa.bind[j], depth - 1) IN IF b = -1 THEN -1 ELSE b + p[j].d
+\* the address (label) or expression value (EQU) where symbol y is defined in layout lay
+SymValA(p, sa, lay, y) == SymValR(p, sa, lay, y, Len(p) + 1)
 
 \* the value the operand of reference item j has to encode in layout lay; Resolved: all its symbols exist
-Resolved(p, lay, j) ==
+ResolvedA(p, sa, lay, j) == ~HasRefName(p[j]) \/ SymValA(p, sa, lay, sa.bind[j]) # -1
+ExpectedA(p, sa, lay, j) ==
   LET it == p[j] IN
-  IF PlainRef(it) THEN SymVal(p, lay, it.l) # -1 ELSE it.t = PcSym \/ SymVal(p, lay, it.t) # -1
-Expected(p, lay, j) ==
-  LET it == p[j] IN
-  IF PlainRef(it) THEN SymVal(p, lay, it.l)
-  ELSE LET base == IF it.t = PcSym THEN lay[j].a ELSE SymVal(p, lay, it.t)
+  IF PlainRef(it) THEN SymValA(p, sa, lay, sa.bind[j])
+  ELSE LET base == IF it.t = PcSym THEN lay[j].a ELSE SymValA(p, sa, lay, sa.bind[j])
        IN IF it.k = "labs" /\ it.df THEN base - lay[j].a ELSE base
 
 FixedSize(it) == CASE it.k = "def" -> 2 [] IsAbs(it) -> it.w [] IsRel(it) -> 2
@@ -121,18 +246,20 @@ EncVal(p, lay, j) ==
   IF VarMode = "abs8" /\ IsVar(p[j]) /\ lay[j].n = VarShort THEN PageAt(p, j) * 256 + lay[j].v ELSE lay[j].v
 
 \* what is wrong with entry j of lay (empty set: nothing)
-Problems(p, o, lay, j) ==
+ProblemsA(p, sa, o, lay, j) ==
   LET it == p[j] e == lay[j] IN
   (IF e.p \in {0, 1} /\ e.a = (IF j = 1 THEN o ELSE lay[j-1].a + lay[j-1].n) + e.p THEN {} ELSE {"address"}) \cup
   (IF (e.p = 1 => Aligned(it)) /\ (Aligned(it) => e.a % 2 = 0) THEN {} ELSE {"padding"}) \cup
   (IF IF IsVar(it) THEN /\ e.n \in {VarShort, VarLong}
                         /\ (e.n = VarShort => IF VarMode = "abs8" THEN e.v \in 0..255 ELSE ShortOK(e.v, e.a, 0))
       ELSE e.n = FixedSize(it) THEN {} ELSE {"size"}) \cup
-  (IF IsRef(it) => Resolved(p, lay, j) /\ EncVal(p, lay, j) = Expected(p, lay, j) THEN {} ELSE {"value"}) \cup  \* every use encodes the final value
+  (IF IsRef(it) => ResolvedA(p, sa, lay, j) /\ EncVal(p, lay, j) = ExpectedA(p, sa, lay, j) THEN {} ELSE {"value"}) \cup  \* every use encodes the final value
   (IF IsRel(it) => Disp8(e.v - (e.a + 2)) THEN {} ELSE {"range"})
+Problems(p, o, lay, j) == UNION {ProblemsA(p, sa, o, lay, j) : sa \in {Analysis(p)}}
 
 \* lay is a layout of p starting at o in which every reference is resolved
-Valid(p, o, lay) == Len(lay) = Len(p) /\ \A j \in 1..Len(p) : Problems(p, o, lay, j) = {}
+ValidA(p, sa, o, lay) == Len(lay) = Len(p) /\ \A j \in 1..Len(p) : ProblemsA(p, sa, o, lay, j) = {}
+Valid(p, o, lay) == \E sa \in {Analysis(p)} : ValidA(p, sa, o, lay)
 
 \* all layouts the size choices allow (addresses follow from the sizes, values from the addresses)
 RECURSIVE AddrSeq(_, _, _, _)
@@ -141,12 +268,12 @@ AddrSeq(p, ch, j, cur) ==
   ELSE LET pd == IF Aligned(p[j]) /\ cur % 2 = 1 THEN 1 ELSE 0
            n  == IF IsVar(p[j]) THEN ch[j] ELSE FixedSize(p[j])
        IN <<[a |-> cur + pd, n |-> n, p |-> pd, v |-> -1]>> \o AddrSeq(p, ch, j + 1, cur + pd + n)
-WithValues(p, lay) ==
-  [j \in 1..Len(p) |-> IF IsRef(p[j]) /\ Resolved(p, lay, j)
-                        THEN [lay[j] EXCEPT !.v = Field(IsVar(p[j]) /\ lay[j].n = VarShort, Expected(p, lay, j))]
+WithValues(p, sa, lay) ==
+  [j \in 1..Len(p) |-> IF IsRef(p[j]) /\ ResolvedA(p, sa, lay, j)
+                        THEN [lay[j] EXCEPT !.v = Field(IsVar(p[j]) /\ lay[j].n = VarShort, ExpectedA(p, sa, lay, j))]
                         ELSE lay[j]]
 VarIdx(p) == {j \in 1..Len(p) : IsVar(p[j])}
-Candidates(p, o) ==
-  {WithValues(p, AddrSeq(p, ch, 1, o)) : ch \in [VarIdx(p) -> {VarShort, VarLong}]}
-Solvable(p, o) == \E lay \in Candidates(p, o) : Valid(p, o, lay)
+Solvable(p, o) ==
+  \E sa \in {Analysis(p)} :
+    \E ch \in [VarIdx(p) -> {VarShort, VarLong}] : ValidA(p, sa, o, WithValues(p, sa, AddrSeq(p, ch, 1, o)))
 =============================================================================
